@@ -73,6 +73,8 @@ pub struct On {
     pub c15: bool,
     pub c16: bool,
     pub c14: bool,
+    /// C01 in this world: collection buffers and split-off parts are live blocks like any other
+    pub c01: bool,
 }
 
 pub struct Ctx<'t> {
@@ -122,7 +124,7 @@ impl<'t> Ctx<'t> {
             cur_op: 0,
             viols: Vec::new(),
             stats,
-            on: On { c06: all || p == "C06" || p == "C07", c07: all || p == "C07", c08: all || p == "C08" || p == "C07", c15: all || p == "C15", c16: all || p == "C16", c14: all || p == "C14" },
+            on: On { c06: all || p == "C06" || p == "C07", c07: all || p == "C07", c08: all || p == "C08" || p == "C07", c15: all || p == "C15", c16: all || p == "C16", c14: all || p == "C14", c01: all || p == "C01" },
             next_val: 1,
             rev: false,
             zst: false,
